@@ -230,6 +230,7 @@ VARIANTS = [
     ("class-level-reserved-set-updated-through-self", F, ["C13", "C10", "C07"], [(AF, "    def __init__(\n        self,\n        anon_pwd,", "    reserved_words = set(default_reserved_words)\n\n    def __init__(\n        self,\n        anon_pwd,"), (AF, "        self.reserved_words = set(default_reserved_words)\n", ""), (AF, "            self.reserved_words.update(reserved_words)", "            self.reserved_words |= set(reserved_words)")]),
     ("class-level-default-shadowed-by-constructor", S, None, [(AF, "    def __init__(\n        self,\n        anon_pwd,", "    reserved_words = frozenset()\n\n    def __init__(\n        self,\n        anon_pwd,")]),
     ("logging-extra-names-a-record-attribute", F, ["C14"], [(AF, 'logging.debug("Input line:  %s", line.rstrip())', 'logging.debug("Input line:  %s", line.rstrip(), extra={"lineno": 1})')]),
+    ("word-stage-created-when-a-salt-is-given", F, ["C10", "C15"], [(AF, "        if sensitive_words is not None:\n            self.anonymizer_sensitive_word", "        if salt is not None:\n            self.anonymizer_sensitive_word")]),
     ("unused-module-constant-from-library-call", S, None, [(SI, "_ANON_SENSITIVE_WORD_LEN = 6", "_ANON_SENSITIVE_WORD_LEN = 6\n_HEX_DIGITS = frozenset('0123456789abcdef')")]),
 ]
 
